@@ -5,6 +5,7 @@ once `NeoModel.Model.Mpt` provides `lookup_putBatch`).
 -/
 import NeoModel.Model.StateCommit
 import NeoModel.Proofs.StateCommit
+import NeoModel.Props.C10
 namespace NeoModel.StateCommit
 
 theorem applyBatch_append (s : Storage) (a b : List Change) :
@@ -78,5 +79,85 @@ def funMap : AuthMap Storage where
 
 example : funMap.lookup (trieAt funMap [[([1], some [7])], [([1], none), ([2], some [])]]) [2] = some [] := by
   rw [root_commits funMap _ (fun _ _ => trivial)]; decide
+
+/-! ### Instance: the MPT model of C10 -/
+section instance_mpt
+open NeoModel.Mpt
+
+theorem toNibbles_inj : ∀ (a b : Bytes), toNibbles a = toNibbles b → a = b := by
+  intro a
+  induction a with
+  | nil => intro b h; cases b with
+    | nil => rfl
+    | cons y ys => simp [toNibbles] at h
+  | cons x xs ih =>
+    intro b h
+    cases b with
+    | nil => simp [toNibbles] at h
+    | cons y ys =>
+      simp only [toNibbles, List.cons.injEq, Fin.mk.injEq] at h
+      obtain ⟨h1, h2, h3⟩ := h
+      have : x = y := by
+        apply UInt8.toNat_inj.mp
+        omega
+      rw [this, ih ys h3]
+
+def toKV (c : Change) : KV := (toNibbles c.1, c.2)
+
+theorem mpt_distinct (b : List Change) (hd : DistinctKeys b) : Mpt.DistinctKeys (b.map toKV) := by
+  unfold Mpt.DistinctKeys
+  induction b with
+  | nil => simp
+  | cons c rest ih =>
+    simp only [DistinctKeys, List.pairwise_cons] at hd
+    simp only [List.map_cons, List.nodup_cons, List.mem_map]
+    refine ⟨?_, ih hd.2⟩
+    rintro ⟨kv, ⟨d, hd', rfl⟩, e⟩
+    exact hd.1 d hd' (toNibbles_inj _ _ e).symm
+
+theorem lookup_eq_lastWrite (b : List Change) (hd : DistinctKeys b) (k : Key) :
+    (b.map toKV).lookup (toNibbles k) = lastWrite b k := by
+  induction b with
+  | nil => rfl
+  | cons c rest ih =>
+    simp only [DistinctKeys, List.pairwise_cons] at hd
+    simp only [List.map_cons, toKV, List.lookup_cons, lastWrite]
+    by_cases hk : c.1 = k
+    · have hnone : lastWrite rest k = none :=
+        (lastWrite_none_iff rest k).mpr (fun d hd' e => hd.1 d hd' (hk.trans e.symm))
+      simp [hk, hnone]
+    · have hne : (toNibbles k == toNibbles c.1) = false := by
+        simp only [beq_eq_false_iff_ne, ne_eq]
+        intro e; exact hk (toNibbles_inj _ _ e).symm
+      have ih' := ih hd.2
+      rw [hne]; simp only [hk, ↓reduceIte]
+      rw [ih']
+      cases lastWrite rest k <;> rfl
+
+/-- the MPT model of C10 as an `AuthMap`: keys are byte strings (id‖key) turned into nibble paths,
+    a block's batch goes through `MapToMPTBatch` (sort) and `PutBatch`. -/
+def mptMap : AuthMap Mpt.Node where
+  empty := .empty
+  lookup := fun t k => Mpt.lookup t (toNibbles k)
+  putBatch := fun t b => Mpt.putBatch t (mapToBatch (b.map toKV))
+  okBatch := DistinctKeys
+  lookup_empty := fun _ => rfl
+  lookup_putBatch := by
+    intro t b hb k
+    rw [Mpt.lookup_putBatch_map t (b.map toKV) (mpt_distinct b hb)]
+    unfold Mpt.applyBatch
+    rw [lookup_eq_lastWrite b hb k, applyBatch_eq_lastWrite]
+    cases lastWrite b k <;> rfl
+
+/-- **root_commits for the real trie model** (C03.1 instantiated): after any history of per-block
+    change sets (one entry per key each), the MPT of C10 — built by sorting each block's change set
+    and applying PutBatch — holds exactly the storage of that height under every key. -/
+theorem mpt_root_commits (bs : List (List Change)) (hok : ∀ b ∈ bs, DistinctKeys b) (k : Key) :
+    Mpt.lookup (trieAt mptMap bs) (toNibbles k) = storageAt bs k :=
+  root_commits mptMap bs hok k
+
+example : Mpt.lookup (trieAt mptMap [[([0x12], some [7])], [([0x12], none), ([0x13, 0x01], some [])]]) (toNibbles [0x13, 0x01]) = some [] := by
+  rw [mpt_root_commits _ (by intro b hb; simp at hb; rcases hb with rfl | rfl <;> simp [DistinctKeys])]; decide
+end instance_mpt
 
 end NeoModel.StateCommit
